@@ -804,8 +804,7 @@ func (vc *VC) appendBuiltin(st *State, c *ssa.CallCommon, args []Val, rt types.T
 
 // appendStructs: append for slices whose elements are struct objects (sub-object ids).
 func (vc *VC) appendStructs(st *State, c *ssa.CallCommon, args []Val, rt types.Type, et types.Type) Val {
-	vc.unsupportedf("append to slice of structs/arrays")
-	return vc.opaqueResult(st, rt, "append")
+	return vc.appendStructsImpl(st, c, args, rt, et)
 }
 
 func (vc *VC) copyBuiltin(st *State, c *ssa.CallCommon, args []Val, rt types.Type) Val {
